@@ -372,3 +372,12 @@ mod tests {
         assert_eq!(expected, actual);
     }
 }
+
+/// Verification hooks (compiled only with `--cfg libp2p_verif`).
+#[cfg(libp2p_verif)]
+pub mod verif_hooks {
+    /// `parse_hex_key` on one key line.
+    pub fn parse_hex_key(s: &str) -> Result<[u8; super::KEY_SIZE], super::KeyParseError> {
+        super::parse_hex_key(s)
+    }
+}
